@@ -63,6 +63,10 @@ CHECKS = {
    text="BufYAML.tla enumerates v2 buf.yaml documents (module directories incl. '.' and overlapping ones, names, includes/excludes, per-module and top-level lint/breaking shapes incl. switched-off checks and ignore_only entries pointing into the second module), checks that top-level paths stay in their module and reach later modules, and emits the effective configuration of every module; the real reader must produce exactly that, write-then-read must preserve every accessor and writing must be idempotent. Samples.tla enumerates feature combinations of buf.gen.yaml v1/v2 (all input kinds, managed sections, plugin options) and buf.work.yaml for the same round trip on all accessors. Migrate.tla enumerates v1/v1beta1 workspaces (single module or buf.work.yaml, per-module lint settings incl. both allow-Empty switches, ignore paths, breaking category); the real migrator runs and files built, lint annotations and configured breaking rules per module must be unchanged.",
    note="Documents come from shapes, not arbitrary YAML; buf.lock is not enumerated; the round-trip oracle is the reader itself plus, for buf.yaml, the specification's Effective.",
    ref="4/C16"),
+ "C20": dict(engine="cli", technique="TLC on Verdict.tla (exit class and printing per scenario) with every scenario run through the real buf binary in all five error formats and the outputs parsed back and compared",
+   text="TLC enumerates scenarios: command (build, lint, breaking, format --exit-code) x up to two planted problems (syntax error, malformed import caught by the import scanner, missing import, lint violations in two files, a lint range spanning lines whose end column is smaller than its start column, breaking change, deleted file, format difference) x operational error (unknown flag, missing input, unreadable configuration) x input spelling (., absolute, ./, file#include_package_files=true) x a directory whose name has a space, quotes, angle brackets, an ampersand, non-ASCII and a newline; it checks that the three exit classes partition the scenarios and emits the class and whether annotations are printed; the harness materialises every scenario, runs the buf binary built from the tree once per --error-format, compares the exit class, requires JSON lines and JUnit XML to be well-formed, and compares count, order, path, start (and, where carried, end) position, rule ID and message of every annotation across formats.",
+   note="Workspaces come from planted shapes; annotation messages are those the planted problems produce (the hostile text is in the path); text/msvs/github-actions are not parsed back for the path that contains a newline. format's parse failure exits 1 (named deviation in the spec, pinned by a repository test).",
+   ref="4/C20"),
 }
 
 NOT_APPLICABLE = {}
